@@ -25,7 +25,7 @@ import (
 //
 // A directory state is 9 tokens: d0|d1 and one token per file, in the order of c34Names:
 //   -        absent            e        empty (just truncated)
-//   w<v>     complete rendering of value tag v         c<v>.<k>  first k bytes of it       j   junk
+//   w<v>     complete rendering of value tag v         c<v>.<k>  first k bytes of it       j   junk    J  long junk (input only)
 // value tags 1..9 are fixed test values; 900.. are values generated (crypto/rand) by the code
 // under test, numbered in order of first appearance (ids even, keys odd; 90x during the killed
 // run, 91x during the recovery start). A public-key file with tag v holds the public key
@@ -87,6 +87,8 @@ func c34Bytes(kind int, tok string) []byte {
 		return []byte{}
 	case tok == "j":
 		return []byte("zz-not-a-value\n")
+	case tok == "J": // junk LONGER than any rendering (a writer that does not truncate leaves its tail behind)
+		return []byte(strings.Repeat("zz-not-a-value-", 20) + "\n")
 	case strings.HasPrefix(tok, "w"):
 		v, err := strconv.Atoi(tok[1:])
 		must(err)
@@ -237,6 +239,9 @@ func (w *c34World) state() string {
 		}
 		if wb, ok := w.wroteB[name]; ok && bytes.Equal(wb, b) {
 			toks[i] = w.wrote[name]
+			if toks[i] == "J" {
+				toks[i] = "j"
+			}
 			if c34Kind[i] == 1 { // register a fresh-looking value only via classify
 				_ = w.classify(1, b)
 			}
@@ -419,7 +424,7 @@ func c34GenState(r *rng, good bool) string {
 		case 8:
 			return fmt.Sprintf("c%d.%d", val(), r.pick(1, 2, lens[kind]/2, lens[kind]-2, lens[kind]-1))
 		default:
-			return "j"
+			return r.pickS("j", "J")
 		}
 	}
 	t := make([]string, 8)
@@ -444,6 +449,13 @@ func c34GenState(r *rng, good bool) string {
 		// sleep values must be renderable: state <= 2
 		t[6] = r.pickS("-", "w1", "w2", "e", "c5.10", "c5.63", "j", "w41")
 	}
+	// renderings of different LENGTHS: command_seq 1234567890 is 9 bytes longer than command_seq 1
+	if r.chance(35) {
+		t[7] = r.pickS("w4938271561", "w4938271562", "c4938271561.63", "J")
+	}
+	if !good && r.chance(15) {
+		t[6] = "w4938271561"
+	}
 	for _, i := range []int{6, 7} { // sleep tags with state 3 do not exist
 		if strings.HasPrefix(t[i], "w3") || strings.HasPrefix(t[i], "c3") {
 			t[i] = "w5"
@@ -465,7 +477,7 @@ func init() {
 				s := c34GenState(r, r.chance(50))
 				switch r.intn(10) {
 				case 0, 1:
-					fmt.Fprintf(w, "persist %d %s\n", r.pick(0, 1, 2, 5, 6, 9, 13, 41), s)
+					fmt.Fprintf(w, "persist %d %s\n", r.pick(0, 1, 2, 5, 6, 9, 13, 41, 4938271561), s)
 				case 2:
 					fmt.Fprintf(w, "storeid %d %s\n", r.pick(1, 2, 4), s)
 				default:
